@@ -1,6 +1,7 @@
 import IsoVerif.Driver.Core
 import IsoVerif.Driver.C04
 import IsoVerif.Model.ChromosomeModels
+import IsoVerif.Model.ChainAssigner
 
 /-! driver ops of the C04 growth "the constructors of one chromosome task" (registered under the prefix `C04.`) -/
 namespace IsoVerif.Driver.C04Split
@@ -130,7 +131,17 @@ def ops : List (String × Handler) := [
       | none => pure (jErr "error")
       | some (s', final, rep') =>
         pure (Json.mkObj [("store", ofStore s'), ("final", ofList ofStr (final.map (·.tid))),
-                          ("reported", ofList ofChainEntry (rep'.mergeSort entryLe))]))
+                          ("reported", ofList ofChainEntry (rep'.mergeSort entryLe))])),
+  -- closure `p04chain`: `assign_reads_to_models` with the assigner's answers given by POSITION in the storage (recorded on a run of
+  -- the real assigner over the same contents under OTHER transcript / gene ids): `insOf` of the table
+  ("assign_content", fun j => do
+      let s ← jStore (← arg j "store")
+      let ans ← jList (fun x => do
+          pure ((← jStr (← arg x "read")), (⟨← jBool (← arg x "consistent"), ← jList jNat (← arg x "matched")⟩ : CAns)))
+        (← arg j "answers")
+      let A : CAssigner := fun r _ => (amGet? ans r).getD ⟨false, []⟩
+      let s' := s.assignReads (insOf A (ans.map (·.1)) s.models)
+      pure (ofRegion s'))
 ]
 
 end IsoVerif.Driver.C04Split
